@@ -210,10 +210,63 @@ def w_digest(ctx, wid, seed, examples):
     core.hyp_campaign(ctx, 'digests', SC.sig_case(), check_digest, examples, seed, case_json)
 
 
+def w_explicit_cli(ctx, wid, seed, rounds):
+    """the real binary with an EXPLICIT script and stack next to a transaction context (`echo <script> | btcdeb --tx=<amounts>:<tx> [--txin=..] [--select=n] <sig> <key>`):
+    the signature is checked for the selected input, with that input's amount and with the digest rules of that input (legacy for an input without
+    witness - whatever the other inputs carry -, BIP143 for one with a witness)"""
+    import random
+    from ..gen import spends as S
+    from ..ref import tx as RT
+    from .. import cli
+    rnd = random.Random(seed)
+    exe = cli.binpath('btcdeb')
+    for _ in range(rounds):
+        nin = rnd.choice([2, 3])
+        k = rnd.randrange(nin)
+        segwit = rnd.random() < 0.5
+        key = S.Key(rnd)
+        amounts = [rnd.randrange(1000, 10 ** 9) for _ in range(nin)]
+        t = RT.Tx()
+        t.version = 2
+        t.locktime = 0
+        t.vin = [dict(txid=bytes(rnd.getrandbits(8) for _ in range(32)), n=rnd.randrange(3), script=b'', seq=0xffffffff, wit=[]) for _ in range(nin)]
+        t.vout = [dict(value=500, spk=b'\x00\x14' + bytes(20))]
+        # at least one OTHER input carries a witness in every case: the legacy input of a mixed transaction is the interesting one
+        other = (k + 1) % nin
+        t.vin[other]['wit'] = [bytes([1]) * 71, bytes([2]) * 33]
+        script = b'\x76\xa9\x14' + S.h160(key.pub) + b'\x88\xac'
+        ht = rnd.choice([1, 1, 2, 3, 0x81])
+        if segwit:
+            t.vin[k]['wit'] = [b'\x00']          # any witness: the input is a segwit input
+            sig = S.ecdsa(key, RT.sighash_v0(t, k, script, amounts[k], ht), ht)
+        else:
+            sig = S.ecdsa(key, RT.sighash_legacy(t, k, script, ht), ht)
+        good = rnd.random() < 0.7
+        amt = list(amounts)
+        if not good:
+            if segwit and rnd.random() < 0.5:
+                amt[k] += 1                     # wrong amount for the selected input
+            else:
+                sig = sig[:10] + bytes([sig[10] ^ 1]) + sig[11:]
+        argv = ['--tx=' + ','.join(T_amount(a) for a in amt) + ':' + t.ser().hex(), '--select=%d' % k, '0x' + sig.hex(), '0x' + key.pub.hex()]
+        r = cli.run(exe, argv, stdin=b'0x' + script.hex().encode() + b'\n')
+        case = dict(kind='explicit-cli', segwit_input=segwit, inputs=nin, selected=k, valid=good, argv=argv)
+        ctx.case(repr(argv), True, case, 'explicit-cli:' + ('v0' if segwit else 'legacy-in-mixed-tx'))
+        if r.timed_out:
+            ctx.inconclusive += 1
+            continue
+        ok = r.rc == 0 and r.out.strip().splitlines()[-1:] == [b'01']
+        if r.abnormal or ok != good:
+            ctx.violations.append(dict(campaign='explicit-cli', why='explicit script against input %d of a %d-input transaction (%s input, another input has a witness): the %s signature is %s (rc=%s, err=%r)' % (
+                k, nin, 'segwit' if segwit else 'legacy', 'valid' if good else 'invalid', 'accepted' if ok else 'rejected', r.rc, r.err[-160:]), case=case, refails=3))
+            return
+
+
 def run(tier, t0):
     W = core.WORKERS
     n = 2500 if tier == 'quick' else 40000
     tasks = [(w_cases, dict(examples=n)) for _ in range(W)] + [(w_instance, dict(examples=n // 4)) for _ in range(max(2, W // 4))] + [(w_digest, dict(examples=n // 4)) for _ in range(max(2, W // 4))]
+    tasks += [(w_explicit_cli, dict(rounds=60 if tier == 'quick' else 2000)) for _ in range(2)]
     m = core.parallel(PID, tasks)
     tot = sum(v for k, v in m.counters.items() if k.startswith('kind:')) or 1
     shares = {k: round(v / tot, 3) for k, v in m.counters.items() if k.startswith('kind:')}
@@ -228,6 +281,17 @@ def run(tier, t0):
 
 
 def replay(rec):
+    if rec.get('campaign') == 'explicit-cli':
+        from .. import cli
+        c = rec['case']
+        script = b'0x' + bytes.fromhex('76a914').hex().encode()
+        # the script is the P2PKH template of the key given as last argument
+        import hashlib
+        pub = bytes.fromhex(c['argv'][-1][2:])
+        h = hashlib.new('ripemd160', hashlib.sha256(pub).digest()).digest() if 'ripemd160' in hashlib.algorithms_available else R.ripemd(R.sha256(pub))
+        r = cli.run(cli.binpath('btcdeb'), c['argv'], stdin=b'0x76a914' + h.hex().encode() + b'88ac\n')
+        ok = r.rc == 0 and r.out.strip().splitlines()[-1:] == [b'01']
+        return ok == c['valid'], 'valid=%r accepted=%r rc=%s err=%r' % (c['valid'], ok, r.rc, r.err[-200:])
     c = case_from_json(rec['case'])
     ctx = core.Ctx(PID)
     try:
